@@ -112,7 +112,7 @@ Record dhist := { dh_cfg : cfg; dh_world : world; dh_ops : list op }.
 
 Definition with_rec (C : cfg) (recursive : bool) : cfg :=
   {| c_recursive := recursive; c_mask := c_mask C; c_root := c_root C; c_fix_ignored := c_fix_ignored C;
-     c_fix_movein := c_fix_movein C; c_fix_simulate := c_fix_simulate C; c_fix_moveout := c_fix_moveout C;
+     c_fix_movein := c_fix_movein C; c_fix_simulate := c_fix_simulate C; c_fix_relabel := c_fix_relabel C; c_fix_moveout := c_fix_moveout C;
      c_faults := c_faults C |}.
 
 (* the events queued over a history in which every operation is drained, for a watch with filter F *)
